@@ -155,14 +155,33 @@ def _plain_init_fields(ci) -> Optional[List[Tuple[str, ast.AST]]]:
     return out
 
 
+def _enter_fields(ci) -> Optional[List[Tuple[str, ast.AST]]]:
+    """[(field, value)] when __enter__ only does `self.<field> = <expr>` (the stash may be taken on entry) and returns; else None."""
+    en = ci.methods.get('__enter__')
+    if en is None:
+        return None
+    me = en.node.args.args[0].arg
+    out = []
+    for st in en.node.body:
+        if isinstance(st, ast.Expr) and isinstance(st.value, ast.Constant):
+            continue
+        if isinstance(st, (ast.Return, ast.Pass)):
+            continue
+        if isinstance(st, ast.Assign) and len(st.targets) == 1 and isinstance(st.targets[0], ast.Attribute) and \
+                isinstance(st.targets[0].value, ast.Name) and st.targets[0].value.id == me:
+            out.append((st.targets[0].attr, st.value, me))
+        else:
+            return None
+    return out
+
+
 def _exit_protocol_body(ci) -> Optional[Tuple[str, List[ast.stmt]]]:
     """(self name, statements) of a class-based context manager whose __enter__ only returns and whose __exit__ never swallows the
     exception (returns nothing / False / None): leaving the with-block runs exactly these statements, like a finally."""
     en, ex = ci.methods.get('__enter__'), ci.methods.get('__exit__')
     if en is None or ex is None:
         return None
-    eb = [s_ for s_ in en.node.body if not (isinstance(s_, ast.Expr) and isinstance(s_.value, ast.Constant))]
-    if not all(isinstance(s_, (ast.Return, ast.Pass)) for s_ in eb):
+    if _enter_fields(ci) is None:
         return None
     xb = [s_ for s_ in ex.node.body if not (isinstance(s_, ast.Expr) and isinstance(s_.value, ast.Constant))]
     rets = [r for s_ in xb for r in ast.walk(s_) if isinstance(r, ast.Return)]
@@ -208,6 +227,19 @@ def _desugar_with(repo, body: List[ast.stmt]) -> List[ast.stmt]:
             out_.append(c_)
         return out_
 
+    def field_assign(st, x: str, fld: str, val: ast.AST, me: str) -> ast.Assign:
+        a_ = ast.Assign(targets=[ast.Attribute(value=ast.Name(id=x, ctx=ast.Load()), attr=fld, ctx=ast.Store())],
+                        value=substitute(val, {me: ast.Name(id=x, ctx=ast.Load())}))
+        ast.copy_location(a_, st)
+        for z in ast.walk(a_):
+            if hasattr(z, 'lineno'):
+                z.lineno = st.lineno
+                z.end_lineno = st.lineno
+        ast.fix_missing_locations(a_)
+        set_parents(a_)
+        a_._parent = parent(st)
+        return a_
+
     def make_try(st, fin_src: List[ast.stmt], env) -> ast.Try:
         fin = []
         for fs in fin_src:
@@ -235,13 +267,7 @@ def _desugar_with(repo, body: List[ast.stmt]) -> List[ast.stmt]:
                     out.append(st)
                     me = ci.methods['__init__'].node.args.args[0].arg if '__init__' in ci.methods else 'self'
                     for fld, val in fields:
-                        a_ = ast.Assign(targets=[ast.Attribute(value=ast.Name(id=x, ctx=ast.Load()), attr=fld, ctx=ast.Store())],
-                                        value=substitute(val, {me: ast.Name(id=x, ctx=ast.Load())}))
-                        ast.copy_location(a_, st)
-                        ast.fix_missing_locations(a_)
-                        set_parents(a_)
-                        a_._parent = parent(st)
-                        out.append(a_)
+                        out.append(field_assign(st, x, fld, val, me))
                     changed = True
                     continue
         if isinstance(st, ast.With) and len(st.items) == 1:
@@ -256,9 +282,21 @@ def _desugar_with(repo, body: List[ast.stmt]) -> List[ast.stmt]:
                 out.append(make_try(st, tr_src.finalbody, env))
                 changed = True
                 continue
+            # `with Cls():` / `with Cls() as x:` - the instance lives for the block only
+            if isinstance(ce, ast.Call) and isinstance(ce.func, ast.Name) and not ce.args and not ce.keywords:
+                ci = repo.find_cls(ce.func.id)
+                if ci is not None and _exit_protocol_body(ci) is not None and _plain_init_fields(ci) is not None:
+                    x = st.items[0].optional_vars.id if isinstance(st.items[0].optional_vars, ast.Name) else f'_cm_{ci.name}'
+                    me0 = ci.methods['__init__'].node.args.args[0].arg if '__init__' in ci.methods else 'self'
+                    for fld, val in _plain_init_fields(ci):
+                        out.append(field_assign(st, x, fld, val, me0))
+                    inst[x] = ci
+                    ce = ast.Name(id=x, ctx=ast.Load())
             if isinstance(ce, ast.Name) and ce.id in inst:
                 proto = _exit_protocol_body(inst[ce.id])
                 if proto is not None:
+                    for fld, val, me1 in _enter_fields(inst[ce.id]):
+                        out.append(field_assign(st, ce.id, fld, val, me1))
                     out.append(make_try(st, proto[1], {proto[0]: ast.Name(id=ce.id, ctx=ast.Load())}))
                     changed = True
                     continue
